@@ -1517,57 +1517,108 @@ func (x *c20ctx) ruleDecoder(encodeFn *ssa.Function, fNonce, fObfs *types.Var, m
 	}
 	// header extent written by the encoder (payload relative): the wire format's
 	// header length is whichever of the two reaches further
-	em := findMask(encodeFn, func(root ssa.Value) bool {
-		_, isMake := root.(*ssa.MakeSlice)
-		return isMake
-	})
+	// The mask call and the payload lay-out may sit in helpers extracted from the
+	// encoder (seal / build functions): helpers are searched two levels deep, and
+	// a helper's parameters are read as the arguments of the call that reached it.
+	var em []c20encMask
+	var encWalk func(l *c20encLevel, d int)
+	encWalk = func(l *c20encLevel, d int) {
+		for _, m := range findMask(l.fn, func(root ssa.Value) bool { return l.isFresh(root, 0) }) {
+			if m.keyIdx >= 0 {
+				fl := map[*types.Var]bool{}
+				x.c20fieldsAt(m.call.Call.Args[m.keyIdx], l, fl)
+				m.keyOK = fl[fObfs] && !fl[fNonce]
+			}
+			em = append(em, c20encMask{call: m.call, fn: m.fn, data: m.data, dataIdx: m.dataIdx, S: m.S, saltIdx: m.saltIdx, keyIdx: m.keyIdx, saltOK: m.saltOK, keyOK: m.keyOK, lvl: l})
+		}
+		if d >= 2 {
+			return
+		}
+		for _, ci := range callsIn(l.fn, func(ci ssa.CallInstruction) bool {
+			g := staticCallee(ci)
+			return g != nil && g != mk.fn && len(g.Blocks) > 0 && p.IsRepoFn(g)
+		}) {
+			call, ok := ci.(*ssa.Call)
+			if !ok {
+				continue
+			}
+			g := staticCallee(call)
+			rec := false
+			for u := l; u != nil; u = u.up {
+				if u.fn == g {
+					rec = true
+				}
+			}
+			if !rec {
+				encWalk(&c20encLevel{fn: g, site: call, up: l}, d+1)
+			}
+		}
+	}
+	encWalk(&c20encLevel{fn: encodeFn}, 0)
 	hDec := H
 	var hEnc int64
-	for _, e := range em {
-		if e.fn != mk.fn {
-			continue
+	// srcExtent: header extent written into the plain payload `src` (seen in
+	// level l) before it is copied behind the salt.
+	var srcExtent func(src ssa.Value, l *c20encLevel, depth int) int64
+	srcExtent = func(src ssa.Value, l *c20encLevel, depth int) int64 {
+		r, slo, _, ok := c20sliceChain(src)
+		if !ok || slo != 0 || depth > 3 {
+			return 0
 		}
-		out, _, _, _ := c20sliceChain(e.data) // the packet under construction
-		rel := map[ssa.Value]int64{out: int64(e.S)}
-		allInstrs(encodeFn, func(in ssa.Instruction) {
-			if call, ok := in.(*ssa.Call); ok && isBuiltinCall(call, "copy") {
-				if r, lo, _, ok := c20sliceChain(call.Call.Args[0]); ok && r == out && lo == int64(e.S) {
-					if src, slo, _, ok := c20sliceChain(call.Call.Args[1]); ok && slo == 0 {
-						if _, isMake := src.(*ssa.MakeSlice); isMake {
-							rel[src] = 0
-						} else if bc, bi := c20callResult(src); bc != nil {
-							// the plain payload is laid out by an extracted builder: its
-							// returned fresh buffer is the payload
-							if g := staticCallee(bc); g != nil && len(g.Blocks) > 0 && p.IsRepoFn(g) && g != mk.fn {
-								if bi < 0 {
-									bi = 0
-								}
-								grel := map[ssa.Value]int64{}
-								allInstrs(g, func(gin ssa.Instruction) {
-									if r, ok := gin.(*ssa.Return); ok {
-										if res := retResults(r); res != nil && bi < len(res) {
-											var ss []c20src
-											c20expand(res[bi], r.Block(), nil, r, 0, &ss)
-											for _, s := range ss {
-												if gr, glo, _, ok := c20sliceChain(s.v); ok && glo == 0 {
-													if _, isMake := gr.(*ssa.MakeSlice); isMake {
-														grel[gr] = 0
-													}
-												}
-											}
-										}
-									}
-								})
-								if h := x.c20writeExtent(g, grel, mk.fn, 0); h > hEnc {
-									hEnc = h
-								}
+		if _, isMake := r.(*ssa.MakeSlice); isMake {
+			return x.c20writeExtent(l.fn, map[ssa.Value]int64{r: 0}, mk.fn, 0)
+		}
+		if a, ul := l.lift(r); a != nil {
+			return srcExtent(a, ul, depth+1)
+		}
+		bc, bi := c20callResult(r)
+		if bc == nil {
+			return 0
+		}
+		// the plain payload is laid out by an extracted builder: its returned
+		// fresh buffer is the payload
+		g := staticCallee(bc)
+		if g == nil || len(g.Blocks) == 0 || !p.IsRepoFn(g) || g == mk.fn {
+			return 0
+		}
+		if bi < 0 {
+			bi = 0
+		}
+		grel := map[ssa.Value]int64{}
+		allInstrs(g, func(gin ssa.Instruction) {
+			if r, ok := gin.(*ssa.Return); ok {
+				if res := retResults(r); res != nil && bi < len(res) {
+					var ss []c20src
+					c20expand(res[bi], r.Block(), nil, r, 0, &ss)
+					for _, s := range ss {
+						if gr, glo, _, ok := c20sliceChain(s.v); ok && glo == 0 {
+							if _, isMake := gr.(*ssa.MakeSlice); isMake {
+								grel[gr] = 0
 							}
 						}
 					}
 				}
 			}
 		})
-		if h := x.c20writeExtent(encodeFn, rel, mk.fn, 0); h > hEnc {
+		return x.c20writeExtent(g, grel, mk.fn, 0)
+	}
+	for _, e := range em {
+		if e.fn != mk.fn {
+			continue
+		}
+		F := e.lvl.fn
+		out, _, _, _ := c20sliceChain(e.data) // the packet under construction
+		rel := map[ssa.Value]int64{out: int64(e.S)}
+		allInstrs(F, func(in ssa.Instruction) {
+			if call, ok := in.(*ssa.Call); ok && isBuiltinCall(call, "copy") {
+				if r, lo, _, ok := c20sliceChain(call.Call.Args[0]); ok && r == out && lo == int64(e.S) {
+					if h := srcExtent(call.Call.Args[1], e.lvl, 0); h > hEnc {
+						hEnc = h
+					}
+				}
+			}
+		})
+		if h := x.c20writeExtent(F, rel, mk.fn, 0); h > hEnc {
 			hEnc = h
 		}
 	}
@@ -1891,6 +1942,75 @@ func (x *c20ctx) ruleDecoder(encodeFn *ssa.Function, fNonce, fObfs *types.Var, m
 		}
 	}
 	x.agg(agree, "C20.R4:encoder-agrees:mask", c20r4, p.Pos(encodeFn.Pos()), "EncodePunchPacket does not mask out[salt:] with the same function, key source (meta.Obfs) and salt split as the decoder")
+}
+
+// c20encLevel: a function on the encoder side -- EncodePunchPacket itself
+// (up == nil) or a repository helper reached from it through the call `site`
+// in level `up`.
+type c20encLevel struct {
+	fn   *ssa.Function
+	site *ssa.Call
+	up   *c20encLevel
+}
+
+// lift reads a parameter of the level's function as the argument of the call
+// that reached it (nil when v is not such a parameter).
+func (l *c20encLevel) lift(v ssa.Value) (ssa.Value, *c20encLevel) {
+	prm, ok := resolve(v).(*ssa.Parameter)
+	if !ok || l == nil || l.up == nil || l.site == nil {
+		return nil, nil
+	}
+	for i, q := range l.fn.Params {
+		if q == prm && i < len(l.site.Call.Args) {
+			return l.site.Call.Args[i], l.up
+		}
+	}
+	return nil, nil
+}
+
+// isFresh: root is a buffer made on the encoder side (make([]byte, n) here, or
+// a whole buffer made by the caller and handed down).
+func (l *c20encLevel) isFresh(root ssa.Value, depth int) bool {
+	if _, isMake := root.(*ssa.MakeSlice); isMake {
+		return true
+	}
+	if depth > 3 {
+		return false
+	}
+	if a, ul := l.lift(root); a != nil {
+		if r, lo, hi, ok := c20sliceChain(a); ok && lo == 0 && hi == -1 {
+			return ul.isFresh(r, depth+1)
+		}
+	}
+	return false
+}
+
+// c20fieldsAt: the struct fields v (a value of level l) is computed from,
+// parameters of helper levels being followed to the arguments they receive.
+func (x *c20ctx) c20fieldsAt(v ssa.Value, l *c20encLevel, out map[*types.Var]bool) {
+	o := x.origins(v)
+	for f := range o.fields {
+		out[f] = true
+	}
+	if l == nil || l.up == nil || l.site == nil {
+		return
+	}
+	for pi := range o.params {
+		if pi < len(l.site.Call.Args) {
+			x.c20fieldsAt(l.site.Call.Args[pi], l.up, out)
+		}
+	}
+}
+
+// c20encMask: a mask call found on the encoder side, in level lvl.
+type c20encMask struct {
+	call            *ssa.Call
+	fn              *ssa.Function
+	data            ssa.Value
+	dataIdx, S      int
+	saltIdx, keyIdx int
+	saltOK, keyOK   bool
+	lvl             *c20encLevel
 }
 
 // c20writesParam: fn stores into (a slice of) its byte-slice parameter #idx,
